@@ -71,6 +71,9 @@ func startAgent(bin, cfg, dir string, listeners []string, extra ...string) (*age
 		a.cmd = exec.Command(bin, args...)
 	}
 	a.cmd.SysProcAttr = &syscall.SysProcAttr{Pdeathsig: syscall.SIGKILL, Setpgid: true}
+	if g := os.Getenv("VERIF_AGENT_GORACE"); g != "" {
+		a.cmd.Env = append(os.Environ(), "GORACE="+g)
+	}
 	stdout, _ := a.cmd.StdoutPipe()
 	a.cmd.Stderr = a.out
 	if err := a.cmd.Start(); err != nil {
@@ -271,6 +274,9 @@ func c04() {
 	defer R.Write()
 	rng := R.Rand("c04")
 	bin := filepath.Join(os.Getenv("VERIF_BIN"), "whawty-auth")
+	if b := os.Getenv("VERIF_AGENT_BIN"); b != "" {
+		bin = filepath.Join(os.Getenv("VERIF_BIN"), b)
+	}
 	dir := filepath.Join(workDir(), "c04")
 	os.RemoveAll(dir) //nolint:errcheck
 	base := filepath.Join(dir, "base")
